@@ -1827,6 +1827,10 @@ class Data(BaseCartesianData):
                         # then also take into account the subarray slices in this
                         # case.
                         mask = mask[subarray_slices]
+                    else:
+                        # The full view is used, so the result does not need
+                        # to be padded later on.
+                        subarray_slices = None
 
                     data = self.get_data(cid, view)
 
